@@ -632,6 +632,8 @@ class C12(Check):
     def _events(records):
         ev = []
         for lvl, msg in records:
+            if lvl == logging.WARNING and msg.startswith("Could not parse all arguments"):
+                ev.append("W:partial")
             if lvl >= logging.ERROR:
                 m = re.match(r"Unrecognized compiler pass: (.*)$", msg, flags=re.S)
                 if m:
